@@ -137,15 +137,21 @@ def search(res, tier, seed, deep=False):
                 for mode in (["none", "days"] if tier != "quick" else [["none", "days"][(rnd + len(name)) % 2]]):
                     rs = np.random.RandomState(r.randint(0, 10 ** 6))
                     n = 730; dry = r.choice([0.05, 0.3, 0.6, 0.9]) if name not in ("ScaledDistributionMapping",) else r.choice([0.05, 0.3, 0.6])
+                    if "years_window" in opt: dry = r.choice([0.3, 0.6])
                     if mode == "days":
                         # a day window holds only (window length x years) values: keep enough wet days in every
                         # window for the distribution fits (a window with < 2 wet values legitimately raises)
                         n = 1461; dry = min(dry, 0.3)
                     nF = n
                     if opt.get("long"):
-                        nF = 365 * 24; dry = min(dry, 0.6)
-                    obs, hist, fut = bounded_series(rs, "pr", n, dry, 0), bounded_series(rs, "pr", n, min(0.95, dry * 1.4), 0.8), bounded_series(rs, "pr", nF, dry * 0.8, 0.4)
+                        nF = 365 * 24; dry = r.choice([0.3, 0.55])
+                    # the model is drier than observed, or wetter (fewer dry days than obs: SSR / censoring then has to create dry days)
+                    wet_bias = r.random() < 0.5 or bool(opt.get("long")) or ("years_window" in opt)
+                    dry_h, dry_f = (dry * 0.6, dry * 0.5) if wet_bias else (min(0.95, dry * 1.4), dry * 0.8)
+                    obs, hist, fut = bounded_series(rs, "pr", n, dry, 0), bounded_series(rs, "pr", n, dry_h, 0.8), bounded_series(rs, "pr", nF, dry_f, 0.4)
                     tO, tF = R.times(n, "1981-01-01"), R.times(nF, "2041-01-01")
+                    smallest = min(x[x > 0].min() for x in (obs, hist, fut))      # before the call: the inputs as given
+                    obs, hist, fut = obs.copy(), hist.copy(), fut.copy()
                     try:
                         if opt.get("censored"):
                             d = D.QuantileMapping.for_precipitation(model_type="censored", running_window_mode=(mode == "days"))
@@ -168,7 +174,6 @@ def search(res, tier, seed, deep=False):
                         if np.any((out > 0) & (out < th)):
                             report("qdm-drizzle", inp, float(out[(out > 0) & (out < th)][0]), "QDM output strictly between 0 and the censoring threshold")
                     if name == "CDFt":
-                        smallest = min(x[x > 0].min() for x in (obs, hist, fut))
                         if np.any((out > 0) & (out < smallest * (1 - 1e-12))):
                             report("cdft-drizzle", inp, float(out[(out > 0) & (out < smallest)][0]), "CDFt (SSR) output strictly between 0 and the smallest positive input value")
 
